@@ -169,10 +169,11 @@ class Douglas(DiscriminativeModel):
         # Compute individual cut points backprop
         for i, (_, cut_points) in enumerate(self.cut_points_list_):
             axes_for_sum = tuple([1 + j for j in range(len(self.cut_points_list_)) if i != j])
-            softmax_grad = binning_backprop.sum(axes_for_sum) / self._all_binnings[i]
+            # binning_backprop already holds the leaf gradient times the leaf memberships, i.e. the gradient of
+            # the i-th binning multiplied by that binning: backprop through its softmax without dividing by it
+            weighted_grad = binning_backprop.sum(axes_for_sum)
 
-            bin_grad = self._all_binnings[i] * (
-                    softmax_grad - (self._all_binnings[i] * softmax_grad).sum(1, keepdims=True))  # Shape Nx(d+1)
+            bin_grad = weighted_grad - self._all_binnings[i] * weighted_grad.sum(1, keepdims=True)  # Shape Nx(d+1)
             bin_grad /= self.temperature
 
             # Gradient is directly on the bias, so we only need to do the cumsum backprop after summing on
